@@ -150,6 +150,11 @@ SYSTEMS = {
     "T4": System("T4", nchains=1, nfa=5, nfb=3, dihedral=False),
 }
 GRID_FAMILY = ("T4",)
+# empty-histogram family (--do-imc only): frames P,Q,R,Z in which chosen members of an IMC group have a COMPLETELY
+# EMPTY per-frame histogram (P: none empty, Q: first member empty, R: second member empty, Z: both empty)
+SYSTEMS["T5"] = System("T5", nchains=1, nfa=2, nfb=2, dihedral=False)
+EMPTY_FAMILY = ("T5",)
+LETTERS5 = "PQRZ"
 
 # CG coordinates of frame A (nm, 3 decimals), displacement tables for B and C
 BASE = {
@@ -193,7 +198,29 @@ K4C = [(0, 0, 0), (0, 0, 0), (0, 0, 0), (0, 0, 0), (1, 0, 0), (0, -2, 0), (0, 0,
        (0, 1, 0), (0, 0, 0), (2, 0, -1), (0, 0, 0)]        # whole-box shifts of single (free) beads in frame C
 
 
+# --- T5 (8 beads: chain C1(A) C2(B) C3(A) C4(B), free A 4,5, free B 6,7).  Members: first = BB / AB, second = bond / AAA.
+#   P: compact chain (bonds in range), A cluster (A-A-A triples), B-B and A-B pairs in range
+#   Q: stretched straight chain (bonds 0.45 in range, 1-4 pair 1.35), A cluster >= 0.9 from every B, B beads isolated
+#   R: bonds 0.6 (outside [0.075,0.525)), A beads isolated from each other (no triple), B-B and A-B pairs in range
+#   Z: bonds 0.6, everything isolated
+BOX5 = {"P": (3.000, 3.200, 3.400), "Q": (3.100, 3.200, 3.400), "R": (3.000, 3.300, 3.400), "Z": (3.000, 3.200, 3.500)}
+FRAMES5 = {
+    "P": [(1.000, 1.000, 1.000), (1.300, 1.000, 1.000), (1.300, 1.280, 1.000), (1.550, 1.300, 1.200),
+          (0.700, 1.000, 1.000), (0.750, 1.350, 1.000), (1.600, 1.000, 1.500), (1.900, 1.300, 1.500)],
+    "Q": [(1.000, 1.000, 1.000), (1.450, 1.000, 1.000), (1.900, 1.000, 1.000), (2.350, 1.000, 1.000),
+          (0.500, 1.000, 1.000), (0.600, 1.000, 1.400), (1.500, 2.600, 2.500), (2.600, 2.500, 0.200)],
+    "R": [(1.000, 1.000, 1.000), (1.600, 1.000, 1.000), (1.600, 1.600, 1.000), (2.200, 1.600, 1.000),
+          (2.200, 1.600, 1.400), (0.200, 0.300, 3.000), (1.600, 1.000, 1.520), (1.600, 0.620, 1.800)],
+    "Z": [(1.000, 1.000, 1.000), (1.600, 1.000, 1.000), (1.600, 1.610, 1.000), (2.210, 1.610, 1.000),
+          (0.200, 0.300, 3.000), (2.800, 3.000, 0.300), (1.500, 2.600, 2.500), (0.300, 2.000, 1.800)],
+}
+# designed emptiness of the per-frame histogram: letter -> interactions that must be EMPTY (all others of S7/S8 populated)
+EMPTY5 = {"P": (), "Q": ("BB", "AB"), "R": ("bond", "AAA"), "Z": ("BB", "AB", "bond", "AAA")}
+
+
 def box_of(sysname, letter):
+    if sysname in EMPTY_FAMILY:
+        return BOX5[letter]
     return BOX4[letter] if sysname in GRID_FAMILY else BOX[letter]
 
 
@@ -216,6 +243,8 @@ DATOM = [(0.010, 0.020, -0.010), (-0.020, 0.010, 0.015), (0.015, -0.015, 0.020),
 def cg_frame(sysname, letter):
     if sysname in GRID_FAMILY:
         return cg_frame4(letter)
+    if sysname in EMPTY_FAMILY:
+        return list(FRAMES5[letter])
     base = BASE[sysname]
     out = []
     for i, p in enumerate(base):
@@ -298,8 +327,10 @@ SETS = {
     "S4": [("BB", "h"), ("AB", "g"), ("AAA", "none"), ("angle", "h")],
     "S5": [("dih", "none"), ("AA", "g"), ("ABB", "none")],
     "S6": [("AA", "g"), ("AB", "g"), ("BB", "h"), ("AAA", "none"), ("bond", "h")],
+    "S7": [("BB", "g"), ("bond", "g")],        # same-type rdf + bonded in one group
+    "S8": [("AB", "g"), ("AAA", "g")],         # cross-type rdf + three-body in one group (dS of AAA not compared)
 }
-SETS_OF = {"T1": ["S1", "S2", "S3", "S4"], "T2": ["S1", "S3", "S5", "S4"], "T3": ["S3", "S2"], "T4": ["S6", "S1"]}
+SETS_OF = {"T1": ["S1", "S2", "S3", "S4"], "T2": ["S1", "S3", "S5", "S4"], "T3": ["S3", "S2"], "T4": ["S6", "S1"], "T5": ["S7", "S8"]}
 
 
 def is_bonded(n):
@@ -526,6 +557,8 @@ class Model:
                     if INTER[n][0] == "rdf":
                         sh = self.shell(n, i) or 0.0
                         dS.append(avg[n][i] - tgt[i] * sh / (V * self.pairnorm(n)))
+                    elif INTER[n][0] == "three":
+                        dS.append(None)         # de-normalisation of an angular target is not defined by the property
                     else:
                         dS.append(avg[n][i] - tgt[i])      # bonded: the tool's de-normalisation factor is 1
                 S.append(n)
@@ -613,6 +646,29 @@ def grid_sensitivity():
                     raise DesignError("frame %s of %s has no %s pair that is sensitive to the cell index of unwrapped coordinates" % (L, sysname, name))
                 res[(sysname, L, name)] = lost
     return res
+
+
+def empty_pattern_check():
+    """the frames of the empty-histogram family must have exactly the designed pattern of empty / populated
+    per-frame histograms (without ties), and populated histograms of one member must differ between frames"""
+    out = {}
+    for sysname in EMPTY_FAMILY:
+        sy = SYSTEMS[sysname]
+        for L in LETTERS5:
+            fr = parse_gro(gro_frame(sysname, L), sy)[0]
+            for name in ("BB", "AB", "bond", "AAA"):
+                mn, st, nb = grid(name, 0)
+                c, t = bin_values(values_of(sy, name, fr, 0), mn, st, nb)
+                if any(lo is not None or hi is not None for lo, hi in t):
+                    raise DesignError("tie in the empty-histogram family: %s frame %s" % (name, L))
+                if (sum(c) == 0) != (name in EMPTY5[L]):
+                    raise DesignError("frame %s of %s: histogram of %s is %s" % (L, sysname, name, "empty" if sum(c) == 0 else "populated"))
+                out[(L, name)] = tuple(c)
+        for name in ("BB", "AB", "bond", "AAA"):
+            pop = [out[(L, name)] for L in LETTERS5 if name not in EMPTY5[L]]
+            if len(set(pop)) != len(pop):
+                raise DesignError("populated histograms of %s do not differ between frames" % name)
+    return out
 
 
 # ----------------------------------------------------------------------------- running the tool
@@ -710,7 +766,7 @@ def cmp_content(fn, got, exp, tol):
         elif got[0] == "table":
             if not close(rg[0], re_[0], (1e-9, 1e-9)):
                 out.append("%s row %d: x=%.10g, expected %.10g" % (fn, i, rg[0], re_[0]))
-            if not close(rg[1], re_[1], tol):
+            if re_[1] is not None and not close(rg[1], re_[1], tol):
                 out.append("%s row %d (x=%.10g): y=%.10g, expected %.10g" % (fn, i, rg[0], rg[1], re_[1]))
         else:
             if len(rg) != len(re_):
@@ -967,6 +1023,14 @@ def enumerate_cases(tier):
                         continue
                     for intra, imc in modes:
                         cases.append(("T4", sname, hist, bl, ff, nf, intra, imc))
+    # empty-histogram family T5 (--do-imc only): ALL sequences over {P,Q,R,Z} = all 0/1 patterns 'member i of the
+    # group is empty in frame k' for two members, length <= 3 (quick) / <= 4 (thorough), with and without blocks
+    maxlen = 3 if tier == "quick" else 4
+    for n in range(1, maxlen + 1):
+        for h in itertools.product(LETTERS5, repeat=n):
+            for sname in SETS_OF["T5"]:
+                for bl in ([0, 2] if tier == "quick" else [0, 1, 2, 3]):
+                    cases.append(("T5", sname, "".join(h), bl, 0, 0, 0, 1))
     return cases
 
 
@@ -977,12 +1041,22 @@ RULE = ("alphabet: frames {A,B,C} (boxes 8.0/11.0/10.08 nm^3, one pair exactly o
         "pairs within the cutoff only through the periodic image and between the last two cell layers on every axis, run with "
         "nbsearch default/grid/simple (byte identical); a Python emulation of the cell grid asserts at start-up that in every T4 frame "
         "a truncating (instead of flooring) cell index would lose pairs of every rdf; "
+        "+ empty-histogram family T5 (--do-imc): frames {P,Q,R,Z} = {no, first, second, both} member(s) of a two-member IMC "
+        "group with a completely EMPTY per-frame histogram (asserted at start-up), groups {same-type rdf BB + bond} and "
+        "{cross-type rdf AB + three-body AAA}: ALL sequences of length <= 3 (quick) / <= 4 (thorough) = all 0/1 emptiness "
+        "patterns, block lengths {0,2} / {0,1,2,3}; gmc/idx (and dS except for three-body members) vs the recomputation + block oracle; "
         "bound: ALL frame sequences of length 1..3 (39) x block lengths x first-frame/nframes selections x interaction sets "
         "(same-type rdf from 0, cross-type rdf from min>0, rdf whose first bin starts at r=0, bond, angle, dihedral, two three-body "
         "angular) x {plain, --include-intra, --do-imc}; every case additionally run with --nt 2 (byte identical) and, per block, "
         "as a fresh run on the block's frames; oracle: Python recomputation of every written file from the same input files + "
         "differential block oracle; distinct = distinct contents of the set of written files; states = distinct "
         "(configuration, processed frame history), transitions = frames merged by the tool, traces = tool runs compared")
+
+
+def unit_of(c):
+    """sharding unit: (system, set, mode, block length) keeps the memo of fresh block runs effective; the long
+    T5 enumeration is split further by the first frame"""
+    return (c[0], c[1], c[6], c[7], c[3], c[2][0] if c[0] in EMPTY_FAMILY else "")
 
 
 def main():
@@ -1005,9 +1079,14 @@ def main():
         "for bonded interactions in an IMC group the de-normalisation factor of the target is 1 (tool convention, not stated by the property)",
         "a pair closer than step/2 for a range starting at 0 (first, half bin) is not in the alphabet: its normalisation is undefined",
         "ranges that are not a multiple of the step are not in the alphabet (undefined bin layout)",
+        "a three-body member of an IMC group is compared in .gmc/.idx/.dist.new; its dS rows in .imc are not (target de-normalisation undefined)",
     ]
     cases = enumerate_cases(a.tier)
     sens = grid_sensitivity()
+    pat = empty_pattern_check()
+    if a.shard == 0:
+        R.sample("empty-histogram family T5 per-frame histograms: " + "; ".join(
+            "%s/%s=%s" % (L, n, "empty" if not any(c) else list(c)) for (L, n), c in sorted(pat.items())))
     if a.shard == 0:
         R.count("grid_family_pairs_sensitive_to_cell_index_of_unwrapped_coordinates", sum(len(v) for v in sens.values()))
         R.sample("grid family: pairs a truncating cell index would lose (bead a, bead b, axis, cells on that axis): " +
@@ -1015,9 +1094,9 @@ def main():
     states, transitions, traces = set(), 0, 0
     units = {}
     for c in cases:      # sharding unit = (system, set, mode, block length): the memo of fresh block runs stays effective
-        units.setdefault((c[0], c[1], c[6], c[7], c[3]), len(units))
+        units.setdefault(unit_of(c), len(units))
     for i, c in enumerate(cases):
-        if not a.mine(units[(c[0], c[1], c[6], c[7], c[3])]):
+        if not a.mine(units[unit_of(c)]):
             continue
         fails, nruns, nframes, info = evaluate(c, R)
         R.eval(nruns)
